@@ -76,6 +76,7 @@ func getAll(r asset.Repository, name string) ([]*asset.Snapshot, bool) {
 // target snapshots that are a prefix of the source (tj <= ns), so the source continues the target;
 // explicit == 1 passes the asset list explicitly (otherwise it is taken from the target);
 // fault: 0 none; 1 = source GetSince of asset 0 fails; 2 = target Append of asset 0 fails;
+// 3 = source GetSince of EVERY asset fails (more failures than workers);
 // workers = number of workers.
 func H_C12(nAssets, ns, tmask, explicit, fault, workers int) {
 	c12core(0, nAssets, ns, tmask, explicit, fault, workers)
@@ -136,6 +137,13 @@ func c12core(tkind, nAssets, ns, tmask, explicit, fault, workers int) {
 		srcRepo = &faultyRepo{Repository: source, failGetSince: map[string]bool{"a0": true}}
 	case 2:
 		tgtRepo = &faultyRepo{Repository: target, failAppend: map[string]bool{"a0": true}}
+	case 3:
+		// more failing assets than workers: every asset's GetSince fails
+		all := map[string]bool{}
+		for _, n := range names {
+			all[n] = true
+		}
+		srcRepo = &faultyRepo{Repository: source, failGetSince: all}
 	}
 	// with an implicit asset list the assets are those the target lists beforehand (a
 	// repository need not list a name that holds no snapshots: C10)
@@ -153,7 +161,7 @@ func c12core(tkind, nAssets, ns, tmask, explicit, fault, workers int) {
 		prev := before[name]
 		var want []*asset.Snapshot
 		want = append(want, prev...)
-		failed := fault != 0 && name == "a0" || explicit == 0 && !listed[name]
+		failed := fault != 0 && name == "a0" || fault == 3 || explicit == 0 && !listed[name]
 		if !failed {
 			for _, x := range src[name] {
 				if len(prev) > 0 {
